@@ -383,6 +383,12 @@ func verifStreamBytes(sc verifStreamScn, payloads []string) ([]byte, []int) {
 		lineEnds = append(lineEnds, buf.Len())
 		evEnds = append(evEnds, buf.Len())
 	}
+	if !truncated && sc.Noise == "afterdone" {
+		// legal SSE after the terminator: a keep-alive comment the backend sends before it closes
+		buf.WriteString(": keep-alive" + nl + nl)
+		lineEnds = append(lineEnds, buf.Len())
+		evEnds = append(evEnds, buf.Len())
+	}
 	b := buf.Bytes()
 	var cuts []int
 	fixed := func(n int) {
@@ -639,7 +645,9 @@ func verifStreamRunStream(tr *Translator, sc verifStreamScn, items []verifStream
 	input, cuts := verifStreamBytes(sc, verifStreamRender(sc, items))
 	pr, pw := io.Pipe()
 	rec := &verifStreamRecorder{hdr: http.Header{}}
-	go func() { // the backend: delivers the bytes in the scenario's read sizes
+	fed := make(chan struct{}) // closed when the backend has delivered everything and closed its side
+	go func() {                // the backend: delivers the bytes in the scenario's read sizes
+		defer close(fed)
 		prev := 0
 		for _, c := range append(append([]int(nil), cuts...), len(input)) {
 			if c <= prev {
@@ -679,6 +687,17 @@ func verifStreamRunStream(tr *Translator, sc verifStreamScn, items []verifStream
 	case <-time.After(verifStreamWatchdog()):
 		hung = true
 	}
+	// The handler couples the translator to the proxy through this unbuffered pipe and waits for the proxy
+	// afterwards: a translator that comes back before the backend's side is drained leaves the proxy blocked
+	// in its write for ever. drained = the backend got rid of all its bytes.
+	drained := false
+	if !hung {
+		select {
+		case <-fed:
+			drained = true
+		case <-time.After(300 * time.Millisecond):
+		}
+	}
 	pr.CloseWithError(io.ErrClosedPipe) // release the feeder whatever happened
 	if hung {
 		b.Emit("Hang", "where", "stream")
@@ -689,7 +708,7 @@ func verifStreamRunStream(tr *Translator, sc verifStreamScn, items []verifStream
 		b.Emit("Panic", "where", "stream", "what", fmt.Sprint(r.panic))
 		return
 	}
-	b.Emit("End", "err", r.err != nil, "bytesIn", len(input), "reads", len(cuts)+1, "bytesOut", rec.buf.Len())
+	b.Emit("End", "err", r.err != nil, "drained", drained, "bytesIn", len(input), "reads", len(cuts)+1, "bytesOut", rec.buf.Len())
 }
 
 // TestVerif_AnthropicStream drives the real translator over TLC-enumerated scenarios.
